@@ -140,10 +140,6 @@ def gen_fiber(rng, uid, *, length=None, whole_km=False, allow_none_con=True, max
         params['con_out'] = pick(rng, [0, 0.5, 0.4, 1.0])
     if rng.random() < 0.3:
         params['pmd_coef'] = pick(rng, [3e-15, 1e-15, 2.5e-15])
-    if lumped and length > 95:
-        # fibres with lumped losses stay below every generated max_length: splitting such a fibre is a separate,
-        # listed defect of auto-design (see known_findings.json, C08)
-        length = params['length'] = round(95 - (length % 40), 3)
     if per_freq_loss:
         base = params.pop('loss_coef')
         params['loss_coef'] = {'value': [round(base + 0.02, 4), round(base, 4), round(base + 0.01, 4),
